@@ -107,6 +107,9 @@ func childMain(o Opts, spec string) error {
 	if cancelStuck > 0 {
 		c.res.CountN("runtime-context-cancel-never-returned", cancelStuck)
 	}
+	if hangsNotReproduced > 0 {
+		c.res.CountN("opt-hang-not-reproduced", hangsNotReproduced)
+	}
 	if guardStuck > 0 {
 		c.res.CountN("run-stuck-outside-watchdog", guardStuck)
 	}
